@@ -149,6 +149,17 @@ def euler_vars(ctx, rng, idx):
             bf = model.cons2prim([np.array(x, copy=True) for x in cf])
             errb = max(float(np.max(np.abs(np.broadcast_to(np.asarray(a_, float), np.shape(b_)) - b_) / (np.abs(b_) + np.max(np.abs(b_)) * 1e-3 + 1e-300))) for a_, b_ in zip(bm, bf))
             ctx.close("mixed-scalar-array", errb, 1e-12 * float(np.max(cond)), "roundtrip/%s/cons2prim-with-scalar-density-differs-from-full-arrays" % kind, {"scalar given as": form.__name__}, cls="roundtrip:" + kind)
+    # elementwise: the conversion of one cell must not depend on which other cells are in the same call (sub-arrays by position, at
+    # random and by speed, compared bit for bit with the full-array result)
+    spd = np.sqrt(np.sum(np.atleast_2d(np.asarray(V, float)) ** 2, axis=0))
+    for sname, msk in {"first-one": np.arange(n) < 1, "random-half": rng.random(n) < 0.5, "slowest-quarter": spd <= np.quantile(spd, 0.25), "fastest-quarter": spd >= np.quantile(spd, 0.75)}.items():
+        if not np.any(msk):
+            continue
+        cs = model.prim2cons([np.array(x, copy=True)[..., msk] for x in prim])
+        bs = model.cons2prim([np.array(x, copy=True)[..., msk] for x in cons])
+        same = all(np.array_equal(np.asarray(a_, float), np.asarray(b_, float)[..., msk], equal_nan=True) for a_, b_ in zip(cs, cons)) and \
+            all(np.array_equal(np.asarray(a_, float), np.asarray(b_, float)[..., msk], equal_nan=True) for a_, b_ in zip(bs, back))
+        ctx.true("elementwise", bool(same), "roundtrip/%s/conversion-of-a-cell-depends-on-the-other-cells-of-the-call" % kind, None if same else {"subset": sname}, cls="roundtrip:" + kind)
     f = ffield.fdata(model, mesh, cons)
     names = list(model.list_var())
     for name in names:
